@@ -37,6 +37,10 @@ type numQuotedG[T any] struct {
 type numNegG[T any] struct {
 	V T `"=" @~"," ","`
 }
+// the capture starts at the very first token of the input
+type numFirstG[T any] struct {
+	V T `@("-"? Num)`
+}
 type namedI16 int16
 type namedF32 float32
 type namedI64 int64
@@ -147,6 +151,32 @@ func numCheck[T any](res *xResult, name, kind string, bits int) {
 			}
 		}
 	}
+	pf, err := participle.Build[numFirstG[T]](participle.Lexer(numLexer), participle.Elide("Whitespace", "Comment"))
+	if err != nil {
+		res.violate("Build numFirstG[%s]: %v", name, err)
+		return
+	}
+	for _, text := range numTexts {
+		for _, neg := range []string{"", "-"} {
+			if neg != "" && kind == "uint" && text != "0" {
+				continue
+			}
+			want, ok := numOracle(kind, bits, neg+text)
+			res.Evaluations++
+			vf, err := pf.ParseString("f", neg+text)
+			got := "<nil>"
+			if vf != nil {
+				got = fmt.Sprint(vf.V)
+			}
+			if ok {
+				checkNum(res, name+" at the start of the input", neg+text, got, err, want, ok)
+			} else if err == nil {
+				res.violate("%s at the start of the input from %q: stored %s although strconv rejects it", name, neg+text, got)
+			} else if perr, isPE := err.(participle.Error); !isPE || perr.Position().Offset != 0 {
+				res.violate("%s at the start of the input from %q: conversion error %v is not located at offset 0", name, neg+text, err)
+			}
+		}
+	}
 	for _, text := range numTexts {
 		// a conversion error is reported as such, at the captured token, also when an optional part after it was
 		// tried, got further and was abandoned
@@ -245,7 +275,7 @@ func checkNum(res *xResult, name, input, got string, err error, want string, ok 
 // TestVerif_C17_NumericOracle: numeric captures agree with strconv for every numeric kind.
 func TestVerif_C17_NumericOracle(t *testing.T) {
 	res := &xResult{Check: "numeric captures vs strconv", Property: "C17", Exhaustive: true,
-		Bound: fmt.Sprintf("%d texts (boundary values of every width, base prefixes, underscores, floats, junk) x {plain, '-' prefix token, '-' then elided whitespace, '-' then elided comment} x 17 field types (all int/uint/float kinds, named int16 / float32 / int64 / uint64 / float64), each as T, *T, []T filled by several captures, []T filled by one capture of three tokens, T followed by optional groups that are entered and abandoned (lookahead 3), T captured through a negation after elided tokens, and T filled from a quoted string through Unquote (so also from the empty text and from text with spaces)", len(numTexts)),
+		Bound: fmt.Sprintf("%d texts (boundary values of every width, base prefixes, underscores, floats, junk) x {plain, '-' prefix token, '-' then elided whitespace, '-' then elided comment} x 17 field types (all int/uint/float kinds, named int16 / float32 / int64 / uint64 / float64), each as T, *T, []T filled by several captures, []T filled by one capture of three tokens, T followed by optional groups that are entered and abandoned (lookahead 3), T captured through a negation after elided tokens, T captured (with an optional sign token) at the very first token of the input, and T filled from a quoted string through Unquote (so also from the empty text and from text with spaces)", len(numTexts)),
 		Rule:  "distinct (field type, input) pairs; non-trivial = strconv rejects the text or several tokens are joined"}
 	_ = math.MaxInt8
 	_ = os.Getenv
